@@ -801,6 +801,78 @@ def r8_empty_selection(ctx):
               "path", n_sites, 1)
 
 
+def r9_features_never_raise(ctx):
+    """rate_quality computes every selected feature: a feature method that
+    raises for some fitted curve (an empty slice handed to argmin, a
+    gradient of one sample) makes rate_quality raise instead of returning
+    -1 for an undefined feature"""
+    from .c17 import r2_nan_not_error
+    r2_nan_not_error(ctx)
+
+
+def r10_sample_columns_by_rater_names(ctx):
+    """A feature vector handed to the standalone rater is laid out by the
+    rater's own names (`self.names`): its columns are split by position in
+    that list.  `get_feature_names(..., ret_indices=True)` yields positions
+    in the list of *all* features - using them on such a vector picks the
+    wrong columns for every feature subset."""
+    m = ctx.repo.mod("rate.rater")
+    f = m.func("IndentationRater.rate")
+    ctx.analysed(f)
+    ps = func_params(f)
+    if "samples" not in ps:
+        raise Undecided("IndentationRater.rate has no `samples` parameter")
+    # names that hold all-feature positions
+    allpos = set()
+    for st in walk_no_nested(f, False):
+        if isinstance(st, ast.Assign) and isinstance(st.value, ast.Call) and \
+                (call_name(st.value) or "").endswith("get_feature_names"):
+            ri = kwarg(st.value, "ret_indices")
+            if ri is not None and not (isinstance(ri, ast.Constant)
+                                       and ri.value is False):
+                for t in st.targets:
+                    for n in ast.walk(t):
+                        if isinstance(n, ast.Name):
+                            allpos.add(n.id)
+    # values derived from the samples argument
+    derived = {"samples"}
+    for _ in range(4):
+        for st in walk_no_nested(f, False):
+            tg, val = None, None
+            if isinstance(st, ast.Assign):
+                tg, val = st.targets, st.value
+            elif isinstance(st, ast.For):
+                tg, val = [st.target], st.iter
+            if tg and any(isinstance(n, ast.Name) and n.id in derived
+                          for n in ast.walk(val)):
+                for t in tg:
+                    for n in ast.walk(t):
+                        if isinstance(n, ast.Name):
+                            derived.add(n.id)
+    n_idx = 0
+    for sb in walk_no_nested(f, False):
+        if not (isinstance(sb, ast.Subscript) and isinstance(
+                sb.value, ast.Name) and sb.value.id in derived
+                and isinstance(sb.ctx, ast.Load)):
+            continue
+        idx_names = {n.id for n in ast.walk(sb.slice)
+                     if isinstance(n, ast.Name)}
+        if not idx_names:
+            continue
+        n_idx += 1
+        bad = idx_names & allpos
+        ctx.check(not bad, sb, f"rate(): {norm(sb)[:40]} indexed by position "
+                  "in self.names",
+                  f"IndentationRater.rate splits the given feature vector "
+                  f"with `{norm(sb)[:50]}`, where `{', '.join(sorted(bad))}` "
+                  "are positions in the list of all features "
+                  "(ret_indices=True), not in the rater's `self.names`: "
+                  "for a feature subset the standalone rater reads the "
+                  "wrong columns (or raises IndexError) while rate_quality "
+                  "does not")
+    ctx.floor("column selections of the samples argument", n_idx, 1)
+
+
 RULES = [
     ("C09-R1", "fit-properties reads on the rating path are guarded "
      "(inter-procedural key-presence typestate)", r1_key_presence),
@@ -820,4 +892,8 @@ RULES = [
      r7_no_data_dependent_abort),
     ("C09-R8", "arrays of a feature selection are combined only when the "
      "selection is not empty", r8_empty_selection),
+    ("C09-R9", "no selected feature raises for a fitted curve (empty "
+     "slices, one-sample gradients)", r9_features_never_raise),
+    ("C09-R10", "the standalone rater splits a feature vector by position "
+     "in its own names", r10_sample_columns_by_rater_names),
 ]
